@@ -48,6 +48,7 @@ type WrapGen struct {
 	Slots []int    // slots that may hold a handle
 	Items []string
 	Tgt   string
+	NoPaging bool // union directory handles list in map order: only ask for everything at once
 }
 
 func (w *WrapGen) path() string {
@@ -134,9 +135,17 @@ func (w *WrapGen) Step() {
 			w.emit(-1, "HStat %d", h())
 		}
 	case 27:
-		w.emit(-1, "HReaddir %d %d", h(), Pick(r, []int{-1, 0, 1, 2, 5}))
+		if w.NoPaging {
+			w.emit(-1, "HReaddir %d %d", h(), Pick(r, []int{-1, 0, 100}))
+		} else {
+			w.emit(-1, "HReaddir %d %d", h(), Pick(r, []int{-1, 0, 1, 2, 5}))
+		}
 	case 28:
-		w.emit(-1, "HReaddirnames %d %d", h(), Pick(r, []int{-1, 0, 1, 3}))
+		if w.NoPaging {
+			w.emit(-1, "HReaddirnames %d %d", h(), Pick(r, []int{-1, 0, 100}))
+		} else {
+			w.emit(-1, "HReaddirnames %d %d", h(), Pick(r, []int{-1, 0, 1, 3}))
+		}
 	default:
 		w.emit(-1, Pick(r, []string{"HName %d", "HSync %d"}), h())
 	}
